@@ -86,9 +86,51 @@ func genBox(t *rapid.T, label string) ref.Box {
 // relatives of a seed box: the interesting relations for overlap / merge / zoom.
 // kind: 0 same, 1 sibling (same parent), 2 child, 3 parent-ish (ancestor), 4 face neighbour,
 // 5 ancestor on horizontal axis only, 6 ancestor on vertical axis only, 7 unrelated, 8 vertical sibling across f=-1/0
+// genFarShift draws a distance next to a power of two: +-(2^k - j) or +-(2^k + j), k = 4..33, j = 0..9 (coordinate
+// differences at which packed / bit-field representations of relative positions overflow).
+func genFarShift(t *rapid.T, label string) int64 {
+	k := rapid.IntRange(4, 33).Draw(t, label+"_k")
+	j := rapid.Int64Range(-9, 9).Draw(t, label+"_j")
+	d := (int64(1) << uint(k)) + j
+	if rapid.Bool().Draw(t, label+"_neg") {
+		return -d
+	}
+	return d
+}
+
+// genFar returns b moved by a far shift along one axis (same zooms), or b if that leaves the grid.
+func genFar(t *rapid.T, label string, b ref.Box) ref.Box {
+	d := genFarShift(t, label)
+	r := b
+	n := int64(1) << uint(b.H)
+	switch rapid.IntRange(0, 2).Draw(t, label+"_ax") {
+	case 0:
+		r.X = b.X + d
+		if r.X < 0 || r.X >= n {
+			r.X = b.X - d
+		}
+	case 1:
+		r.Y = b.Y + d
+		if r.Y < 0 || r.Y >= n {
+			r.Y = b.Y - d
+		}
+	default:
+		r.F = b.F + d
+		if !r.Valid() {
+			r.F = b.F - d
+		}
+	}
+	if r.Valid() {
+		return r
+	}
+	return b
+}
+
 func genRelative(t *rapid.T, label string, b ref.Box, maxUp, maxDown int64) ref.Box {
-	kind := rapid.IntRange(0, 8).Draw(t, label+"_rel")
+	kind := rapid.IntRange(0, 9).Draw(t, label+"_rel")
 	switch kind {
+	case 9:
+		return genFar(t, label, b)
 	case 0:
 		return b
 	case 1:
